@@ -1,9 +1,10 @@
 (* C12 — Patch application is all-or-nothing and exact when it succeeds.
-   Statements only; proofs are in Proofs/PatchProofs.v, Proofs/PatchAtomic.v, Proofs/FsProofs.v.
+   Statements only; proofs are in Proofs/PatchProofs.v, Proofs/PatchAtomic.v, Proofs/FsProofs.v,
+   Proofs/PatchEffects.v, Proofs/PatchSections.v.
    Model: Model/Patch.v (parser, hunks, Workspace::apply_patch with the first-seen undo list) over
    the file-system model Base/Fs.v.  `apply_patch true` is the code after fix 6739939, `apply_patch
    false` the code before it. *)
-From RipV Require Import Base.Prelude Base.Fs Model.Patch Proofs.FsProofs Proofs.PatchProofs Proofs.PatchAtomic Proofs.PatchText Proofs.PatchParse Proofs.PatchExamples Proofs.PatchEffects.
+From RipV Require Import Base.Prelude Base.Fs Model.Patch Proofs.FsProofs Proofs.PatchProofs Proofs.PatchAtomic Proofs.PatchText Proofs.PatchParse Proofs.PatchExamples Proofs.PatchEffects Proofs.PatchSections.
 
 (* ---- ATOMICITY (the code after fix 6739939).  For every well-formed workspace tree f (unique
    keys, every entry's ancestors are directories), every patch document (well-formed or not), every
@@ -75,6 +76,67 @@ Theorem c12_success_effects : forall (f : fs) (ops : list op) (f' : fs) (changed
   effects (file_at f) ops (file_at f') /\ changed = sort_dedup (map normalize_rel (affected_paths ops)).
 Proof. exact success_effects. Qed.
 Print Assumptions c12_success_effects.
+
+(* ---- several sections of one patch on the same path.  Every update section works on the text the
+   sections BEFORE it have left at its path (m = the files after performing `pre` in order) — never on
+   anything the path held earlier in the same patch *)
+Theorem c12_section_sees_earlier_sections :
+  forall (f : fs) (pre : list op) (p : list N) (mv : option (list N)) (hs : list hunk) (post : list op) (f' : fs) (ch : list (list N)),
+  fs_wf f -> apply_ops true [] f (pre ++ Upd p mv hs :: post) = Applied f' ch ->
+  exists m b b', effects (file_at f) pre m /\ m (comps p) = Some b /\ utf8_ok b = true /\ apply_hunks_to_text b hs = Some b'.
+Proof. exact section_sees_earlier_sections. Qed.
+Print Assumptions c12_section_sees_earlier_sections.
+
+(* a path re-created by `Add File` (after it was moved away, deleted, or never existed): the next
+   section on that path works on the ADDED content c, whatever the path held before (`pre` is
+   arbitrary: it may have updated p and moved it away); with no move and no later section on the
+   path, the path ends up holding c with the hunks applied *)
+Theorem c12_update_after_recreation :
+  forall (f : fs) (pre : list op) (p1 c : list N) (mid : list op) (p : list N) (mv : option (list N)) (hs : list hunk)
+         (post : list op) (f' : fs) (ch : list (list N)),
+  fs_wf f -> apply_ops true [] f (pre ++ Add p1 c :: mid ++ Upd p mv hs :: post) = Applied f' ch ->
+  comps p1 = comps p -> ~ In (comps p) (map comps (affected_paths mid)) ->
+  exists b', apply_hunks_to_text c hs = Some b' /\
+    (mv = None -> ~ In (comps p) (map comps (affected_paths post)) -> file_at f' (comps p) = Some b').
+Proof. exact update_after_recreation. Qed.
+Print Assumptions c12_update_after_recreation.
+
+(* the same for a path re-created by another section's `Move to`: the next section on it works on the
+   moved-in text (r's text with r's hunks applied) *)
+Theorem c12_update_after_move_in :
+  forall (f : fs) (pre : list op) (r t : list N) (hs0 : list hunk) (mid : list op) (p : list N) (mv : option (list N))
+         (hs : list hunk) (post : list op) (f' : fs) (ch : list (list N)),
+  fs_wf f -> apply_ops true [] f (pre ++ Upd r (Some t) hs0 :: mid ++ Upd p mv hs :: post) = Applied f' ch ->
+  comps t = comps p -> ~ In (comps p) (map comps (affected_paths mid)) ->
+  exists m b0 b1 b', effects (file_at f) pre m /\ m (comps r) = Some b0 /\
+    apply_hunks_to_text b0 hs0 = Some b1 /\ apply_hunks_to_text b1 hs = Some b'.
+Proof. exact update_after_move_in. Qed.
+Print Assumptions c12_update_after_move_in.
+
+(* and hunks that only fit what the path held EARLIER are refused with the whole patch: when they do
+   not apply to the added content, the apply fails and every file keeps its bytes *)
+Theorem c12_stale_context_is_refused :
+  forall (f : fs) (pre : list op) (p1 c : list N) (mid : list op) (p : list N) (mv : option (list N)) (hs : list hunk) (post : list op),
+  fs_wf f -> comps p1 = comps p -> ~ In (comps p) (map comps (affected_paths mid)) ->
+  apply_hunks_to_text c hs = None ->
+  exists g e, apply_ops true [] f (pre ++ Add p1 c :: mid ++ Upd p mv hs :: post) = Failed g e /\
+    forall q, file_at g q = file_at f q.
+Proof. exact stale_context_is_refused. Qed.
+Print Assumptions c12_stale_context_is_refused.
+
+(* instances: update + move away, re-create (other spelling of the same path), update: the last section
+   sees the re-created file; its context only in the moved-away text: refused, nothing changed; chain
+   a -> b -> a followed by an update of a *)
+Example c12_ex_sections_wf : fs_wf sec_fs.
+Proof. exact sec_wf. Qed.
+Example c12_ex_update_after_move_and_readd :
+  apply_ops true [] sec_fs sec_ops_ok = Applied sec_after_ok sec_changed_ok.
+Proof. exact sec_ok_run. Qed.
+Example c12_ex_stale_context_refused : apply_ops true [] sec_fs sec_ops_stale = Failed sec_fs EINVALDATA.
+Proof. exact sec_stale_run. Qed.
+Example c12_ex_chain_there_and_back :
+  apply_ops true [] sec_fs sec_ops_chain = Applied sec_after_chain sec_changed_chain.
+Proof. exact sec_chain_run. Qed.
 
 Theorem c12_success_complete : forall (fixed : bool) (root : path) (f : fs) (ops : list op) (f' : fs),
   spec_ops root f ops = Ok f' -> apply_ops fixed root f ops = Applied f' (changed_files ops).
